@@ -628,7 +628,7 @@ def gen_conv(rng, sj):
 def gen_numeric(tier, rng):
     cases = []
     thorough = tier != "quick"
-    nb = 4 if thorough else 1
+    nb = 6 if thorough else 2
     for fn in FUNCS:
         lmax = 1 if fn == "eri" else 3
         for n in (1, 2, 3):
